@@ -70,7 +70,7 @@ func c09Grid(w *W) {
 		}
 	}
 	mustSet(w, s, mangos.OptionRecvDeadline, time.Millisecond)
-	if err := s.Listen(addr); err != nil {
+	if err := w.ListenOn(s, addr); err != nil {
 		w.Failf("HARNESS/listen", "%v", err)
 		return
 	}
@@ -206,7 +206,7 @@ func c09Chain(w *W) {
 	if calibrate {
 		nclient = 1
 	}
-	tran := []string{"inproc", "sim"}[w.Choose(simrt.SShape, 2)]
+	tran := []string{"inproc", "sim", "tcp", "ipc", "tls+tcp"}[w.Choose(simrt.SShape, 5)]
 	nmsg := 1 + w.Choose(simrt.SShape, 5)
 	w.SetShape("family", fam.name)
 	w.SetShape("devices", d)
@@ -238,7 +238,7 @@ func c09Chain(w *W) {
 		if fam.name == "pubsub" {
 			mustSet(w, server, mangos.OptionSubscribe, "")
 		}
-		if err := server.Listen(endAddr); err != nil {
+		if err := w.ListenOn(server, endAddr); err != nil {
 			w.Failf("HARNESS/listen", "%v", err)
 			return
 		}
@@ -248,24 +248,24 @@ func c09Chain(w *W) {
 	for i := 0; i < d; i++ {
 		if fam.devBack == "" {
 			x := sock(fam.devFront)
-			if err := x.Dial(next); err != nil {
+			if err := w.DialOn(x, next); err != nil {
 				w.Failf("HARNESS/dev-dial", "%v", err)
 				return
 			}
 			next = w.Addr(tran)
-			if err := x.Listen(next); err != nil {
+			if err := w.ListenOn(x, next); err != nil {
 				w.Failf("HARNESS/dev-listen", "%v", err)
 				return
 			}
 			continue
 		}
 		front, back := sock(fam.devFront), sock(fam.devBack)
-		if err := back.Dial(next); err != nil {
+		if err := w.DialOn(back, next); err != nil {
 			w.Failf("HARNESS/dev-dial", "%v", err)
 			return
 		}
 		next = w.Addr(tran)
-		if err := front.Listen(next); err != nil {
+		if err := w.ListenOn(front, next); err != nil {
 			w.Failf("HARNESS/dev-listen", "%v", err)
 			return
 		}
@@ -277,7 +277,7 @@ func c09Chain(w *W) {
 	var clients []mangos.Socket
 	for i := 0; i < nclient; i++ {
 		c := sock(fam.client)
-		if err := c.Dial(next); err != nil {
+		if err := w.DialOn(c, next); err != nil {
 			w.Failf("HARNESS/client-dial", "%v", err)
 			return
 		}
